@@ -127,7 +127,16 @@ def label(t, v, node, env, mode, scheme=0, ctx=''):
         k = base.kind
         node.kind = k + sfx
         c = node.content
-        if k == 'OCTETSTRING':
+        if k == 'BOOLEAN':
+            if not isinstance(v, bool) or len(c) != 1 or bool(c[0]) != v:
+                raise LabelMismatch('boolean contents')
+        elif k == 'INTEGER':
+            if isinstance(v, bool) or not isinstance(v, int) or not c or int.from_bytes(c, 'big', signed=True) != v:
+                raise LabelMismatch('integer contents')
+        elif k == 'NULL':
+            if c:
+                raise LabelMismatch('null contents')
+        elif k == 'OCTETSTRING':
             if not isinstance(v, (bytes, bytearray)) or bytes(v) != c:
                 raise LabelMismatch('octet string contents')
             node.lab = 'oct'
